@@ -919,6 +919,8 @@ def ln1(ctx, R):
     calls = [c for c in walk_body(bi.node) if isinstance(c, ast.Call) and call_reaches(ctx, bi, c, {nsv.qual})]
     R.check(bool(calls), "reader.TdmsReader._build_index::uses the funnel", bi.where(), "lazy index counts through _number_of_segment_values",
             "the lazy offset index computes per-segment counts by other means than _number_of_segment_values")
+    from .region import call_reaches
+    from .cfg import node_calls
     # a count recorded for segment i is computed in round i: in a loop over the segments, what is stored under the loop's own index
     # must not be a value left over from an earlier round (a memo over neighbouring segments forgets what else the count depends on,
     # e.g. the truncated final chunk)
@@ -951,9 +953,21 @@ def ln1(ctx, R):
                     if any(x in r for x in sn):
                         stale = nm
             key = "%s::entry %s of the per-segment table" % (bi.qual, idx)
+            # ... and comes from the counting function in this round: a count answered from a memo (a dictionary keyed by part of what
+            # the count depends on) is a count computed for another segment
+            if not stale:
+                fn_nodes = set(cfg.where(lambda n: any(call_reaches(ctx, bi, c_, {nsv.qual}) for c_ in node_calls(n))))
+                sn_ = cfg.where(lambda n: n.kind == "stmt" and n.ast is st)
+                inside_calls = any(n.ast is not None and inside(n.ast) for n in fn_nodes)
+                if inside_calls:
+                    for h in cfg.where(lambda n: n.kind == "for" and n.ast is loop):
+                        starts = [m for m, k in h.succ if k == "loop" and m not in fn_nodes]
+                        r = cfg.reach(starts, avoid=lambda n: n in fn_nodes, follow_exc=False) if starts else set()
+                        if any(x in r for x in sn_):
+                            stale = "a count that does not come from %s in this round" % nsv.name
             if stale:
-                R.violation(key, bi.where(st), "`%s` can store a value of `%s` that was computed in an earlier round of the loop over the segments: the count of a "
-                            "segment is taken over from a neighbour instead of being computed for this segment" % (unparse(st)[:60], stale))
+                R.violation(key, bi.where(st), "`%s` can store %s: the count of a segment is taken over from another segment (an earlier round, a memo) instead "
+                            "of being computed for this segment" % (unparse(st)[:60], stale if stale.startswith("a count") else "a value of `%s` that was computed in an earlier round of the loop over the segments" % stale))
             else:
                 R.ok(key, bi.where(st), "what is stored under the loop's index is computed in the same round")
     # no other place multiplies number_values by a chunk count
